@@ -3,7 +3,7 @@ call (`BaseTask.can_add_resources`, `BaseWorkplace.can_put`, the per-step contri
 `BaseTask.perform`) are evaluated on REAL mid-run states — taken at random observer boundaries of a
 real run, half of them after scrambling task / resource states so that also the branches no run
 reaches (a NONE or FINISHED task asking for resources, an ABSENT member of a WORKING task) are tied
-to the model's `canAdd`, `availSpace`, `contrib`.  Mirrors purestream.py: real function and model
+to the model's `canAdd`, `availSpace`, `isReady`, `contrib`.  Mirrors purestream.py: real function and model
 function on the same input, disagreement = broken correspondence of that function."""
 from env import *  # noqa: F401,F403
 import env
@@ -87,6 +87,19 @@ class Probe:
                             self.nontrivial += 1
                         if ans != ("1" if real else "0"):
                             self.differ("canPut", boundary, [q, c], real, ans, scrambled)
+            if "canPut" in self.fns:
+                for c in range(len(ix.comps)):
+                    real = bool(ix.comps[c].is_ready())
+                    ans = drv.ask(["FN", "isReady", str(c)] + toks)
+                    self.cell("isReady")["executions"] += 1
+                    if ans != ("1" if real else "0"):
+                        self.differ("isReady", boundary, [c], real, ans, scrambled)
+                for q in range(len(ix.wps)):
+                    real = codec.rat_str(ix.wps[q].get_available_space_size())
+                    ans = drv.ask(["FN", "availSpace", str(q)] + toks)
+                    self.cell("availSpace")["executions"] += 1
+                    if ans != real:
+                        self.differ("availSpace", boundary, [q], real, ans, scrambled)
             if "contrib" in self.fns:
                 for t, task in enumerate(ix.tasks):
                     if task.state != BaseTaskState.WORKING:
